@@ -123,7 +123,7 @@ func stmtDepthAssign(ss []*tw.Stmt, depth int, f map[string]int) {
 func TestC04_ProgramsEnum(t *testing.T) {
 	budget := harness.Pick(3, 4)
 	c := harness.New(t, "C04", "programs-enum",
-		fmt.Sprintf("every program of at most %d statements (3 quick, 4 thorough) over: assignments of an int / string / bool literal to a or b, delimited reads of a or b, and the nesting forms @if(true){..}, @if(false){a = 1}@else{..}, @each(v in [1,2]){..}, @each(a in [5]){..} (loop variable shadowing a), @for(b = 0; b < 1; b++){..}; each under three data maps (none, a pre-bound as int, a pre-bound as string). Expected output or error-ness from the reference scope chain (block scoping, type stability, loop variables vanish). Non-trivial: an assignment inside a nested block and a read, or an error outcome. Distinct by construction.", budget))
+		fmt.Sprintf("every program of at most %d statements (3 quick, 4 thorough) over: assignments of an int / string / bool literal to a or b, delimited reads of a or b, and the nesting forms @if(true){..}, @if(false){a = 1}@else{..}, @if(false){b = 2}@elseif(true){..}, @each(v in [1,2]){..}, @each(a in [5]){..} (loop variable shadowing a), @for(b = 0; b < 1; b++){..}; each under three data maps (none, a pre-bound as int, a pre-bound as string). Expected output or error-ness from the reference scope chain (block scoping, type stability, loop variables vanish). Non-trivial: an assignment inside a nested block and a read, or an error outcome. Distinct by construction.", budget))
 	defer c.Finish()
 	in := interp()
 	datas := []*spec.Data{nil, (&spec.Data{}).Add("a", spec.IntOf(spec.TInt8, 3)), (&spec.Data{}).Add("a", spec.String("pre"))}
